@@ -72,11 +72,13 @@ def cut_sets(U, full=True):
     return out
 
 
-def needed_vector(D0, U, p, cuts):
+def needed_vector(D0, U, p, cuts, generic_rational=False):
     """original knot vector with each junction knot reduced to the multiplicity the curve needs there"""
     exp = list(U)
     if not D0.is_polynomial():
-        return None
+        # rational curves are only built from generic data here: every knot of U is needed with its full multiplicity and a
+        # cut at a non-knot needs no knot at all, so the joined curve must come back on U itself
+        return list(U) if generic_rational else None
     g = D0.refine(cuts)
     for k in cuts:
         if not (U[0] < k < U[-1]):
@@ -206,7 +208,7 @@ def run_case(case, res):
                 good = True
                 for i in range(1, len(pieces)):
                     last = i == len(pieces) - 1
-                    expect = needed_vector(D0, U, p, cuts) if last else None
+                    expect = needed_vector(D0, U, p, cuts, generic_rational=(P is gen and W is gw)) if last else None
                     J = check_join(res, J, pieces[i], D0.restrict(cuts[0], cuts[i]), D0.restrict(cuts[i], cuts[i + 1]),
                                    f"{where} chain step {i}", jt, expect_knots=expect)
                     if J is None:
@@ -214,6 +216,15 @@ def run_case(case, res):
                         break
                 if good and not lib.curve_pw(J).same(D0):
                     res.violation("join_not_original", f"{where}: joining all pieces does not give back the curve", op="join", **jt)
+                if good and W is not None and len(pieces) == 2:
+                    # history: split, rescale the weights of one piece (the same function), join
+                    res.transition()
+                    q0, q1 = c.split(list(nodes)) if nodes is not None else c.split()
+                    o2 = lib.outcome(lambda: setattr(q1, "weights", [3 * w for w in q1.weights]))
+                    if o2[0] == "ok":
+                        check_join(res, q0, q1, D0.restrict(cuts[0], cuts[1]), D0.restrict(cuts[1], cuts[2]),
+                                   f"{where} with the right piece's weights rescaled by 3", dict(jt, source="split_rescaled"),
+                                   expect_knots=needed_vector(D0, U, p, cuts, generic_rational=(P is gen and W is gw)))
     res.observe(sorted(res.outcomes.items()))
 
 
